@@ -73,6 +73,8 @@ def init_jax():
 
     jax.config.update("jax_enable_x64", True)
     try:  # persistent XLA compilation cache (ignored build output): repeated runs skip most of the compile time
+        if os.environ.get("VERIF_JAX_CACHE", "1") == "0":
+            raise RuntimeError("persistent cache disabled")
         cache = os.path.join(VERIF, "harness", ".cache", "jax")
         os.makedirs(cache, exist_ok=True)
         jax.config.update("jax_compilation_cache_dir", cache)
@@ -146,6 +148,32 @@ def sha(obj) -> str:
     return hashlib.sha1(json.dumps(obj, sort_keys=True, default=str).encode()).hexdigest()[:12]
 
 
+_GUARD = {"n": 0, "cleared": 0}
+
+
+def _mapping_guard(every=200, limit=20000):
+    """Every live XLA executable holds a few memory mappings; a long run that compiles tens of thousands of distinct small computations
+    (eager ops on ever new shapes / static slices) exhausts the process's mappings (vm.max_map_count = 65530) and XLA then segfaults inside
+    its compile or cache-read step (seen in the thorough tier of C01 and C09).  Every `every` counted cases: if the process has more than
+    `limit` mappings, drop JAX's compilation caches."""
+    _GUARD["n"] += 1
+    if _GUARD["n"] % every:
+        return
+    try:
+        with open("/proc/self/maps", "rb") as f:
+            n = sum(1 for _ in f)
+        if n > limit:
+            import gc
+
+            import jax
+
+            jax.clear_caches()
+            gc.collect()
+            _GUARD["cleared"] += 1
+    except Exception:  # noqa: BLE001
+        pass
+
+
 class Unit:
     def __init__(self, name, what):
         self.name, self.what = name, what
@@ -157,6 +185,7 @@ class Unit:
 
     def count(self, case_key, nontrivial=True, tag=None):
         self.cases += 1
+        _mapping_guard()
         h = case_key if isinstance(case_key, str) else sha(case_key)
         self.hashes.add(h)
         if nontrivial:
